@@ -469,8 +469,10 @@ impl<A: Send + 'static> Cell<A> {
                         let inner_s = inner_s.upgrade().unwrap();
                         inner_s.with_firing_op(|firing_op: &mut Option<A>| {
                             if let Some(ref firing) = firing_op {
-                                let sa = sa.unwrap();
-                                sa._send(firing.clone());
+                                // the output may have been dropped already (node2 keeps this node)
+                                if let Some(sa) = sa.upgrade() {
+                                    sa._send(firing.clone());
+                                }
                             }
                         });
                     },
@@ -567,9 +569,13 @@ impl<A: Send + 'static> Cell<A> {
                     cca.updates()
                         .with_firing_op(|firing_op: &mut Option<Cell<A>>| {
                             if let Some(ref firing) = firing_op {
+                                // the output may have been dropped already (this closure keeps node2)
+                                let sa = match sa.upgrade() {
+                                    Some(sa) => sa,
+                                    None => return,
+                                };
                                 // will be overwriten by node2 firing if there is one
                                 sodium_ctx.update_node(firing.updates().node());
-                                let sa = sa.unwrap();
                                 sa._send(firing.sample());
                                 node1.data.changed.store(true, Ordering::SeqCst);
                                 node2.data.changed.store(true, Ordering::SeqCst);
@@ -603,8 +609,9 @@ impl<A: Send + 'static> Cell<A> {
                     let last_inner_s = last_inner_s.upgrade().unwrap();
                     last_inner_s.with_firing_op(|firing_op: &mut Option<A>| {
                         if let Some(ref firing) = firing_op {
-                            let sa = sa.unwrap();
-                            sa._send(firing.clone());
+                            if let Some(sa) = sa.upgrade() {
+                                sa._send(firing.clone());
+                            }
                         }
                     });
                 };
